@@ -2,8 +2,8 @@ package silx
 
 import (
 	"fmt"
-	"os"
 	"math/rand/v2"
+	"os"
 	"strings"
 	"time"
 
